@@ -112,6 +112,10 @@ def _shape_stream(shape):
         return server_frame(1, 1, sx.sym_bytes("a", 1)) + server_frame(1, 2, sx.sym_bytes("b", 2))
     if shape == "masked":
         return server_frame(1, 2, sx.sym_bytes("a", 2), key=sx.sym_bytes("k", 4))
+    if shape == "bin-big":
+        # a payload that needs several 16 KiB reads (40004 bytes: symbolic ends, fixed middle), then a short text frame
+        p = sx.sym_bytes("a", 2) + bytes((11 * j) & 255 for j in range(40000)) + sx.sym_bytes("b", 2)
+        return server_frame(1, 2, p) + server_frame(1, 1, sx.sym_bytes("c", 1))
     raise AssertionError(shape)
 
 
@@ -180,7 +184,15 @@ def s_part(shape, ncuts, ntimeouts, allcuts=False, nonblocking=False):
     stream = _shape_stream(shape)
     n = len(stream)
     keys1 = [sx.sym_bytes("k1_%d" % i, 4) for i in range(3)]
-    if allcuts:
+    if shape == "bin-big":
+        # cut positions from a catalogue: inside the header, early / exactly at / just behind the 16 KiB read boundaries, near the end
+        cand = [1, 3, 4, 5, 6, 104, 16384, 16387, 16388, 16389, 20000, 32772, 32773, 36000, n - 5, n - 4, n - 3, n - 1]
+        cuts, lo = [], 0
+        for j in range(ncuts):
+            ci = lo + sx.choice("cut%d" % j, len(cand) - lo)
+            cuts.append(cand[ci])
+            lo = ci
+    elif allcuts:
         # every subset of cut positions: one symbolic bit per position
         cuts = [i for i in range(1, n) if sx.choice("cut%d" % i, 2)]
     else:
@@ -295,6 +307,7 @@ def obligations(tier):
         part.append(dict(shape=sh, ncuts=0, ntimeouts=0, allcuts=True))  # every partition (stream lengths 5..10)
         part.append(dict(shape=sh, ncuts=2 if not thorough else 3, ntimeouts=2))
     part.append(dict(shape="bin16", ncuts=2, ntimeouts=1))
+    part.append(dict(shape="bin-big", ncuts=2, ntimeouts=2 if thorough else 1))  # timeouts part-way through a payload of several 16 KiB reads (round 8)
     for sh in ("text", "frag+ping", "close"):
         part.append(dict(shape=sh, ncuts=2, ntimeouts=2, nonblocking=True))
     if thorough:
@@ -311,7 +324,7 @@ def obligations(tier):
                    must_cover=["returned", "timeout-kept"], budget_s=1800, kernel=["frame_buffer.recv_strict"]),
         Obligation("S-part", s_part, part,
                    bounds="traffic shapes %s with symbolic payloads: EVERY partition of the 5..11-byte streams into reads; all placements of <=%d cuts "
-                          "with <=2 timeouts (before any segment) on all shapes incl. a 134-byte 16-bit frame; 3 shapes also on a non-blocking transport "
+                          "with <=2 timeouts (before any segment) on all shapes incl. a 134-byte 16-bit frame; a 40004-byte frame (several 16 KiB reads) cut at 2 of 18 catalogued positions with a timeout; 3 shapes also on a non-blocking transport "
                           "(timeout 0: would-block instead of timeout)" % (shapes + ["bin16"], 3 if thorough else 2),
                    must_cover=["part", "with-timeout"], budget_s=2400 if thorough else 1200,
                    kernel=["frame_buffer.recv_frame (stage flags)", "recv_strict", "_socket.recv", "WebSocket._recv", "recv_data_frame", "continuous_frame.*"]),
